@@ -235,7 +235,7 @@ CHECKS = {
     ),
     "C45": (
         "runtime monitor: lease model per pushed bookmark with remote updates placed before, between and during the push (hook-triggered)",
-        "A bare remote, a jj clone and a second plain-git clone: random local bookmark edits, fetches and jj git push (--bookmark/--all/--deleted) while the other clone force-pushes, deletes or updates refs before the fetch, between fetch and push, and - through JJ_VERIF_RUN_AT=git.push.before_spawn - while the push is in flight; per bookmark with R0 = remote position when git runs, E = recorded name@origin, T = local target: the remote changes only if R0 == E and only to T; otherwise remote, record and local bookmark are unchanged and the rejection is reported.",
+        "A bare remote, a jj clone and a second plain-git clone: random local bookmark edits, fetches and jj git push (--bookmark/--all/--deleted) while the other clone force-pushes, deletes or updates refs before the fetch, between fetch and push, - through JJ_VERIF_RUN_AT=git.push.before_spawn - while the push is in flight, and - through an `update` hook of the bare remote - after git's client-side lease check (the remote itself then refuses one bookmark of a multi-bookmark push); per bookmark with R0 = remote position when git runs, E = recorded name@origin, T = local target: the remote changes only if R0 == E and only to T; otherwise remote, record and local bookmark are unchanged and the rejection is reported.",
         "If R0 != E but R0 already equals T nothing is overwritten and only 'record is the old value or R0' is enforced; the set of attempted bookmarks is taken from jj's own announcement.",
     ),
 }
